@@ -273,7 +273,11 @@ def run_cmd(cwd, args, plan=None, gc=None, streams="pipes", timeout=20, dump=Fal
 
 
 def worker_dir(name="w"):
-    d = os.path.join(SCRATCH, "%s%d" % (name, os.getpid()))
+    """Per-worker scratch directory.  Its name has a fixed length and does not contain the pid: an absolute path can
+    leak into program output (the loader's error messages quote the resolved library path), and a path of varying
+    length would change write sizes in the event log."""
+    ident = multiprocessing.current_process()._identity
+    d = os.path.join(SCRATCH, "%s%02d" % (name, ident[0] % 100 if ident else 0))
     return d
 
 
@@ -393,7 +397,39 @@ def stats_of(procs, rules_by_proc=None):
         st["sigs"].append(event_signature(p["events"]))
         st["ops"].update(p["stats"].get("ops", {}).keys())
     st["ops"] = sorted(st["ops"])
+    st["digest"] = digest_of(procs)
     return st
+
+
+_THREAD_ID = None
+
+
+def digest_of(procs):
+    """Digest of everything observable about the processes of a case (exit codes, both streams, complete
+    event logs); the determinism protocol compares it across repeated executions.  Thread ids in panic
+    messages and addresses are normalised (ASLR and pids are not owned by the simulator)."""
+    import re
+    global _THREAD_ID
+    if _THREAD_ID is None:
+        _THREAD_ID = (re.compile(rb"thread '([^']*)' \(\d+\)"), re.compile(rb"0x[0-9a-fA-F]{6,}"),
+                      re.compile(re.escape(SCRATCH.encode()) + rb"/w\d\d"))
+    h = hashlib.sha256()
+    for p in procs:
+        h.update(repr(p["rc"]).encode())
+        for stream in (p["out"], p["err"]):
+            t = _THREAD_ID[0].sub(rb"thread '\1' (N)", stream)
+            t = _THREAD_ID[1].sub(b"0xADDR", t)
+            t = _THREAD_ID[2].sub(b"<scratch>", t)
+            h.update(t)
+            h.update(b"|")
+        panicked = b"panicked at" in p["err"] or b"panicked at" in p["out"]
+        for e in p["events"]:
+            if panicked and e["path"] in ("<stderr>", "<stdout>") and e["call"] == "write":
+                # a panic message carries the OS thread id, whose digit count changes the write sizes
+                h.update(("%s,%s,%d,%s;" % (e["call"], e["path"], e["errno"], e["rule"] != "-")).encode())
+                continue
+            h.update(("%d,%s,%s,%d,%d,%d,%s;" % (e["seq"], e["call"], e["path"], e["req"], e["res"], e["errno"], e["rule"])).encode())
+    return h.hexdigest()[:20]
 
 
 def shape_hash(*parts):
